@@ -198,14 +198,16 @@ Proof.
     rewrite D, WW.
     (* brS r = X * 2^(brW r1) + brS r1 and 2^(brW r - n) divides 2^(brW r1) *)
     assert (S1 : brS r = (br_buffer r * 256 ^ nb + be_decode (ztake nb (br_rest r))) * 2 ^ (n - br_bits r - nb * 8) * 2 ^ (brW r - n) + brS r1).
-    { unfold brS at 1 3. unfold r1. cbn [br_buffer br_rest].
-      rewrite <- (ztake_zdrop nb (br_rest r)) at 1 2. rewrite bd_app, zlen_app.
-      rewrite (zlen_ztake nb) by lia. rewrite Z.min_l by lia.
-      pose proof (zlen_nonneg (zdrop nb (br_rest r))) as HL2.
+    { unfold brS, r1. cbn [br_buffer br_rest].
+      pose proof (ztake_zdrop nb (br_rest r)) as TD.
+      assert (E1 : be_decode (br_rest r) = be_decode (ztake nb (br_rest r)) * 256 ^ zlen (zdrop nb (br_rest r)) + be_decode (zdrop nb (br_rest r))).
+      { rewrite <- TD at 1. apply bd_app. }
       assert (HZ : zlen (zdrop nb (br_rest r)) = zlen (br_rest r) - nb) by (rewrite zlen_zdrop by lia; lia).
-      rewrite <- Z.mul_assoc, <- Z.pow_add_r by (unfold brW; lia).
-      replace (n - br_bits r - nb * 8 + (brW r - n)) with (8 * zlen (zdrop nb (br_rest r))) by (unfold brW; lia).
-      rewrite <- pow256 by lia. rewrite Z.pow_add_r by lia. lia. }
+      assert (E3 : 2 ^ (n - br_bits r - nb * 8) * 2 ^ (brW r - n) = 256 ^ zlen (zdrop nb (br_rest r))).
+      { rewrite <- Z.pow_add_r by (unfold brW; lia). rewrite pow256 by lia. f_equal. unfold brW. lia. }
+      rewrite <- Z.mul_assoc, E3, E1.
+      replace (zlen (br_rest r)) with (nb + zlen (zdrop nb (br_rest r))) by lia.
+      rewrite Z.pow_add_r by lia. ring. }
     rewrite S1. rewrite Z.add_comm, Z.mod_add; [reflexivity|].
     pose proof (pow2_pos (brW r - n) ltac:(lia)). lia.
 Qed.
@@ -255,7 +257,8 @@ Proof.
   assert (HS2 : brS r = fields_value fs1 * 2 ^ m + D).
   { rewrite HS. unfold D, m. rewrite Z.pow_add_r by lia. lia. }
   assert (HWm : brW r - fields_width fs1 = 0 + m) by (unfold m; lia).
-  rewrite HS2, HWm in *. rewrite split_div by (unfold m; lia). rewrite split_mod in S' by (unfold m; lia).
+  assert (Hm0 : 0 <= m) by (unfold m; lia).
+  rewrite HS2, HWm in S' |- *. rewrite split_div; [| exact HD | lia | exact Hm0]. rewrite split_mod in S'; [| exact HD | lia | exact Hm0].
   change (2 ^ 0) with 1 in *. rewrite Z.mod_1_r in S'. rewrite Z.div_1_r.
   split; [|reflexivity].
   unfold holds. rewrite pow256 by lia. repeat (split; [assumption|]).
@@ -317,7 +320,8 @@ Proof.
   destruct (holds_read _ _ _ _ _ _ H) as (r' & A & H').
   exists r'. split; [|exact H'].
   rewrite br_read_unfold in A. rewrite <- Hbits in A.
-  replace (br_bits r >? br_bits r) with false in A by (symmetry; apply Z.gtb_ltb; apply Z.ltb_irrefl).
+  assert (G : (br_bits r >? br_bits r) = false) by (rewrite Z.gtb_ltb; apply Z.ltb_irrefl).
+  rewrite G in A.
   unfold br_take in A. rewrite Z.sub_diag in A. change (2 ^ 0) with 1 in A. rewrite Z.mod_1_r in A.
   injection A as _ A. unfold a_align. cbn [fst snd]. rewrite A. reflexivity.
 Qed.
@@ -351,8 +355,9 @@ Proof.
   { unfold brW, br_new. cbn [br_bits br_rest]. rewrite zlen_app, zlen_be_enc. lia. }
   split.
   { unfold brS, br_new. cbn [br_buffer br_rest]. rewrite bd_app, bd_enc_mod.
-    rewrite Z.mod_small; [rewrite Z.add_0_r; change (2 ^ 0) with 1; lia|].
-    rewrite pow256 by lia. rewrite Hm8. rewrite Z.add_0_r.
+    replace (pad + 0) with pad by lia.
+    rewrite Z.mod_small; [change (2 ^ 0) with 1; ring|].
+    rewrite pow256 by lia. rewrite Hm8.
     pose proof (fv_bound _ Hok). rewrite Z.pow_add_r by lia. pose proof (pow2_pos pad ltac:(lia)). nia. }
   rewrite Z.add_0_r, Z.add_0_l. exact Hm.
 Qed.
